@@ -475,6 +475,8 @@ class PauliStringLinear(PauliString):
 
         # Create a new list of terms where each coefficient is scaled by the number
         new_terms = [(coeff * scalar, pauli) for coeff, pauli in self]
+        if not new_terms:
+            return PauliStringLinear([])
         return p(new_terms)
 
     @property
